@@ -25,6 +25,9 @@ structure DS where
   batch : Nat := 0        -- fresh at the start of every macro operation
   rs : Bool := false      -- the case runs on a real StandardRunService (loop drains at once)
   cand : List (Nat × Nat) := []  -- (id, instant) of the runtime timers set and not yet gone off (read off the events)
+  svc : Bool := false            -- service-level case: an actorex/service.Service owns the manager
+  pending : List (Nat × Nat) := []  -- its request table: (tag, deadline)
+  own : Nat := 0                 -- Service.timerCheckExpired
   deriving Inhabited
 
 def qcap : Nat := 999
@@ -172,6 +175,75 @@ def manAdv (d : DS) (target : Nat) : DS :=
   let d := advanceTo d target
   { d with batch := d.batch + 1 }
 
+/-! ### service level (actorex/service.Service: tryStartCheckTimer / checkExpired / freeTimer)
+
+The service arms ONE repeating 1 s timer when a request is issued and none is armed; its
+callback `checkExpired` frees the timer — `Cancel` of itself from inside its own callback —
+when the request table is empty, else drops the entries whose deadline has passed.  In the
+timer model that callback is script 1, set just before each firing to `[cancelSelf]` or `[]`
+according to the wrapper's table: everything stays a history of primitive `Timer.step`s. -/
+
+def reqTimeout : Nat := 30000
+
+def liveIds (m : State) : List Nat := ((List.range (m.nextId + 1)).filter (· ≥ 2)).filter fun id => (m.tm id).inMap
+
+def svcSuffix (d : DS) (toks : List String) : String :=
+  s!"now={d.m.now} ev={joinWith ";" (toks.filter (·.startsWith "cb:"))} live={joinWith "," ((liveIds d.m).map toString)} own={d.own} pend={d.pending.length} q={d.qlen}"
+
+/-- the run-service loop drains the queue; each element is a firing of a check timer -/
+def svcPump : Nat → DS → DS × List String
+  | 0, d => (d, [])
+  | fuel + 1, d =>
+    let d := dropCancelled d
+    match d.m.queue with
+    | [] => (d, [])
+    | id :: _ =>
+      let d :=
+        if d.pending.isEmpty then
+          { (stepM d (.defScript 1 [.cancelSelf])).1 with own := if d.own == id then 0 else d.own }
+        else
+          { (stepM d (.defScript 1 [])).1 with pending := d.pending.filter fun p => !(p.2 < d.m.now) }
+      let (d, toks) := runDo d 0
+      let (d, toks') := svcPump fuel d
+      (d, toks ++ toks')
+
+def svcAdv : Nat → DS → Nat → DS × List String
+  | 0, d, _ => (d, [])
+  | fuel + 1, d, target =>
+    let (d, toks) := svcPump 1000 d
+    match minExp d target with
+    | none => (advanceTo d target, toks)
+    | some e =>
+      let d := settle (advanceTo d e)
+      let (d, toks') := svcAdv fuel d target
+      (d, toks ++ toks')
+
+def execSvc (d : DS) (ws : List String) : DS × String :=
+  match ws.head? with
+  | some "sreq" =>
+    match kvNat ws "k" with
+    | some k =>
+      let d := { d with pending := d.pending ++ [(k, d.m.now + reqTimeout)] }
+      let d := if d.own == 0 then
+          let d := settle (stepM d (.add 1000 1 [])).1
+          { d with own := d.m.nextId }
+        else d
+      (d, svcSuffix d [])
+    | none => (d, "bad-op")
+  | some "sresp" =>
+    match kvNat ws "k" with
+    | some k =>
+      let d := { d with pending := d.pending.filter fun p => p.1 != k }
+      (d, svcSuffix d [])
+    | none => (d, "bad-op")
+  | some "sadv" =>
+    match kvNat ws "d" with
+    | some du =>
+      let (d, toks) := svcAdv 1000000 d (d.m.now + du)
+      (d, svcSuffix d toks)
+    | none => (d, "bad-op")
+  | _ => (d, "bad-op")
+
 /-! ### parsing -/
 
 def parseArgs (s : String) : List Nat := (s.splitOn ".").filterMap String.toNat?
@@ -206,7 +278,10 @@ def cbIdsOf (obs : String) : List Nat :=
 def exec (d : DS) (line : String) (hints : List Nat) : DS × String :=
   let ws := words line
   match ws.head? with
-  | some "reset" => ({ rs := (kvNat ws "rs").getD 0 == 1 }, "ok")
+  | some "reset" =>
+    let svc := (kvNat ws "svc").getD 0 == 1
+    ({ rs := (kvNat ws "rs").getD 0 == 1 || svc, svc := svc }, "ok")
+  | some "sreq" | some "sresp" | some "sadv" => if d.svc then execSvc d ws else (d, "bad-op")
   | some "script" =>
     match kvNat ws "n" with
     | some k => ((stepM d (.defScript k (parseActs ((kv ws "a").getD "")))).1, "ok")
@@ -312,6 +387,8 @@ structure SS where
   viol : Option String := none
   curT : Nat := 0          -- time of the callback whose log is being read
   lenient : Bool := false  -- the observation is cut short (runaway): ids may be unknown
+  svc : Bool := false      -- service-level case
+  own : Nat := 0           -- the check timer the service believes it owns (0: none)
   deriving Inhabited
 
 def SS.find (s : SS) (id : Nat) : Option TI := s.tis.find? (·.id == id)
@@ -357,6 +434,29 @@ def specTok (s : SS) (tok : String) : SS :=
     | _, _, _ => s.flag "C14/bad-observation" tok
   | _ => s
 
+/-- service level, before the callback log is read: a timer the service newly owns was armed now -/
+def svcPre (s : SS) (ow : List String) : SS :=
+  let own' := (kvNat ow "own").getD 0
+  if own' != 0 && own' != s.own && (s.find own').isNone then s.register own' s.now 1000 true [] else s
+
+/-- service level, after the log: the service gave up (cancelled) the timer it owned; what its
+timer manager still holds must be exactly the timer the service owns -/
+def svcPost (s : SS) (ow : List String) : SS :=
+  let own' := (kvNat ow "own").getD 0
+  let live := (((kv ow "live").getD "").splitOn ",").filterMap String.toNat?
+  let s := if s.own != 0 && own' != s.own then s.modify s.own fun ti => { ti with cancelled := true } else s
+  let s := { s with own := own' }
+  let stale := live.filter fun id => id != own'
+  let s := match stale.find? (fun id => (s.find id).any (·.cancelled)) with
+    | some id => s.flag "C14/cancel-had-no-effect" s!"the service cancelled its check timer {id} (from inside that timer's callback) but the timer manager still holds it"
+    | none => s
+  let s := if live.length > 1 || (!stale.isEmpty) then
+      s.flag "C14/timer-leaked" s!"timer manager holds timers {live} while the service owns {own'}: at most the one check timer may be alive"
+    else s
+  if own' != 0 && !live.contains own' then
+    s.flag "C14/timer-lost" s!"the service owns check timer {own'} but the timer manager does not hold it"
+  else s
+
 def evToks (obs : String) (key : String) : List String :=
   match kv (words obs) key with
   | none => []
@@ -377,7 +477,9 @@ def specStep (s : SS) (line : String) : SS × String :=
     let s := { s with viol := none }
     if obs.startsWith "panic" || obs.startsWith "<no-observation" then
       (s, "VIOLATION C14/panic-escaped a panic left the timer manager / the consumer died at: " ++ op)
-    else if ws.head? == some "reset" then ({ rs := (kvNat ws "rs").getD 0 == 1 }, "ok")
+    else if ws.head? == some "reset" then
+      let svc := (kvNat ws "svc").getD 0 == 1
+      ({ rs := (kvNat ws "rs").getD 0 == 1 || svc, svc := svc }, "ok")
     else
       let s := { s with curT := s.now, lenient := obs.startsWith "runaway" }
       -- the operation itself
@@ -407,7 +509,9 @@ def specStep (s : SS) (line : String) : SS × String :=
           | none => s
         else s
       let s := if kv ow "loop" == some "0" then s.flag "C14/callback-off-owner-goroutine" "a callback ran on a goroutine other than the run service's loop" else s
+      let s := if s.svc then svcPre s ow else s
       let s := (toks ++ stray).foldl specTok s
+      let s := if s.svc && (kv ow "own").isSome then svcPost s ow else s
       let s := match kvNat ow "now" with
         | some t => { s with now := t }
         | none => s
